@@ -69,7 +69,7 @@ pub fn decode(src: &mut Source) -> Box<dyn Case> {
     let x = content_word(src, &l, &ax, 3, 9, &mut redraws);
     if let (Some(u), Some(v), Some(x)) = (u, v, x) {
         // ratings: uniform, and adversarially ordered in half of the instances
-        let mut ratings = |src: &mut Source| -> (usize, usize) {
+        let ratings = |src: &mut Source| -> (usize, usize) {
             let r1 = src.below(1usize << 31);
             let r2 = src.below(1usize << 31);
             if src.chance(1, 2) { (r1.min(r2), r1.max(r2)) } else { (r1, r2) }
@@ -113,13 +113,29 @@ pub fn decode(src: &mut Source) -> Box<dyn Case> {
         push("R2 both>one (u x)", format!("{} {}", u, v), format!("{} {}", u, x), format!("{} {}", u, v), r);
         let r = ratings(src);
         push("R2 both>one (x v)", format!("{} {}", u, v), format!("{} {}", x, v), format!("{} {}", u, v), r);
+        // R1 also: the word spelled as two words is the word with a (separator) typo
+        {
+            let uc: Vec<char> = u.chars().collect();
+            let k = 1 + src.below(uc.len() - 1);
+            let sep = *src.pick(&[" ", "-"]);
+            let split = format!("{}{}{}", uc[..k].iter().collect::<String>(), sep, uc[k..].iter().collect::<String>());
+            if tokenize_record(&split, &l).words.iter().all(|w| !w.is_function()) {
+                let r = ratings(src);
+                push("R1 exact>split spelling", u.clone(), split, u.clone(), r);
+            }
+        }
         // R3 'u' > 'u'+suffix for u and for any typed prefix
         {
-            let sfx = word_from(src, &au, 1, 3);
+            // random letters, or a real inflectional ending of the language (the stemmer then maps
+            // the longer word back onto u)
+            let sfx = if src.chance(1, 2) { word_from(src, &au, 1, 3) } else { src.pick(suffixes(lang)).to_string() };
             let long = format!("{}{}", u, sfx);
             if !is_func(&l, &long) {
                 let r = ratings(src);
                 push("R3 word>word+suffix (full)", u.clone(), long.clone(), u.clone(), r);
+                // the full word typed and finished (a separator follows)
+                let r = ratings(src);
+                push("R3 word>word+suffix (full, finished)", u.clone(), long.clone(), format!("{} ", u), r);
                 let uc: Vec<char> = u.chars().collect();
                 let p = 1 + src.below(uc.len());
                 let r = ratings(src);
@@ -167,7 +183,7 @@ pub fn decode(src: &mut Source) -> Box<dyn Case> {
     if src.chance(1, 3) {
         for i in insts.iter_mut() {
             let style = src.below(3);
-            let mut recase = |t: &str| -> String {
+            let recase = |t: &str| -> String {
                 t.split(' ')
                     .map(|w| match style {
                         0 => {
